@@ -153,7 +153,8 @@ def r2(repo, res, canon, pc, logic, plogic):
         must = path_must(plogic, p, i, depth=0)
         split = Lit('truthy(BatchProcessing.resource_split)', True) in must
         v = r.value
-        A = affine(pc, v, hfr)
+        from .common import path_affine_env
+        A = affine(pc, v, p.events[i].frame, path_affine_env(pc, p, p.events[i].frame, i))
         n_ret += 1
         if A.is_const() and A.const == 0:
             continue
